@@ -8,7 +8,8 @@ ASSUMPTIONS = [
     'histories reuse a pre-built interface only while the model definition is unchanged (an interface built before an edit is documented as invalid; check_interface only tests model.initialized and would accept it again after re-initialisation - outside the claim)',
     'seed 0 means time-of-day seeding and is excluded; machine wrap-around of the 64-bit recurrence is not modelled (congruence only)',
     'odeint deterministic',
-    'mutator contracts are shape-class proofs on one base model; lineage models: rule registration only',
+    'mutator contracts are shape-class proofs on one base model; lineage models: registration of rules, events and splitters exactly once and in order across repeated initialisations (one feature-complete shape, with and without an event added in between)',
+    'every sampler (normal, gamma, exponential, discrete, binomial) is proved to be a function of the random stream from the current position only; module-level variables that a function reassigns are arbitrary at function entry',
 ]
 TRUSTED = []
 EXPLANATION = ('mutator posts (uninitialised flag / in-place writes with array identity), re-initialisation idempotent and equal to the definition, interface shares the model arrays and '
